@@ -5,7 +5,7 @@
    "tspec <hex input> <hex final rest> <hex text> <hex after> ..." -> "1"/"0" (tokens_ok)
    <tbl> = comma-separated byte counts consumed by the real MkLexer.Expr at the
    suffixes text[0:], text[1:], ... text[n:]  (0 = nil).
-   line = a0|a1|...|a12|s|t ; harness/c10sh.go builds the same line from the real code. *)
+   line = a0|a1|...|a12|s|t|x ; harness/c10sh.go builds the same line from the real code. *)
 let quot_index (q : quoting) : int =
   match q with
   | QPlain -> 0 | QDquot -> 1 | QSquot -> 2 | QBackt -> 3 | QSubsh -> 4 | QDquotBackt -> 5
@@ -26,13 +26,19 @@ let tokens_section (r : ((token * str) list * state) res) : string =
   | Panic -> "!panic"
   | OutOfFuel -> "!fuel"
   | Ok (toks, (_, rest)) -> String.concat "," (List.map token_str toks) ^ ";" ^ hex_of_bytes rest
+let split_section (r : (str list * str) res) : string =
+  match r with
+  | Panic -> "!panic"
+  | OutOfFuel -> "!fuel"
+  | Ok (toks, rest) -> String.concat "," (List.map hex_of_bytes toks) ^ ";" ^ hex_of_bytes rest
 let parse_tbl (t : string) : nat list =
   List.map (fun x -> nat_of_int (int_of_string x)) (String.split_on_char ',' t)
 let line (tbl : string) (h : string) : string =
   let s = bytes_of_hex h in
   let expr = table_expr (nat_of_int (List.length s)) (parse_tbl tbl) in
   let secs = List.mapi (fun i q -> "a" ^ string_of_int i ^ ":" ^ atoms_section (sh_atoms_from expr q (false, s))) all_quotings in
-  String.concat "|" (secs @ ["s:" ^ atoms_section (sh_atoms expr s); "t:" ^ tokens_section (sh_tokens expr s)])
+  String.concat "|" (secs @ ["s:" ^ atoms_section (sh_atoms expr s); "t:" ^ tokens_section (sh_tokens expr s);
+                            "x:" ^ split_section (split_tokens expr s)])
 let rec pairs (l : string list) : (str * str) list =
   match l with
   | a :: b :: tl -> (bytes_of_hex a, bytes_of_hex b) :: pairs tl
